@@ -191,7 +191,16 @@ func (w *world) stop() {
 // udpExchange sends one datagram from a fresh socket and collects every reply
 // that arrives: the first within `wait`, then any extra within `extra`.
 func udpExchange(addr string, q []byte, wait, extra time.Duration) [][]byte {
-	c, err := net.Dial("udp", addr)
+	return udpExchangeFrom("", addr, q, wait, extra)
+}
+
+// udpExchangeFrom: the same from a given local address ("" = any)
+func udpExchangeFrom(local, addr string, q []byte, wait, extra time.Duration) [][]byte {
+	d := net.Dialer{}
+	if local != "" {
+		d.LocalAddr = &net.UDPAddr{IP: net.ParseIP(local)}
+	}
+	c, err := d.Dial("udp", addr)
 	if err != nil {
 		return nil
 	}
@@ -216,7 +225,15 @@ func udpExchange(addr string, q []byte, wait, extra time.Duration) [][]byte {
 // returns everything the server sent until `want` bytes-frames are complete, the
 // peer closes, or the deadline passes. closed reports whether EOF was seen.
 func tcpExchange(addr string, raw []byte, wantFrames int, wait, extra time.Duration) (stream []byte, closed bool) {
-	c, err := net.Dial("tcp", addr)
+	return tcpExchangeFrom("", addr, raw, wantFrames, wait, extra)
+}
+
+func tcpExchangeFrom(local, addr string, raw []byte, wantFrames int, wait, extra time.Duration) (stream []byte, closed bool) {
+	d := net.Dialer{}
+	if local != "" {
+		d.LocalAddr = &net.TCPAddr{IP: net.ParseIP(local)}
+	}
+	c, err := d.Dial("tcp", addr)
 	if err != nil {
 		return nil, true
 	}
